@@ -63,4 +63,5 @@ let () =
   Registry.register "timing" timing;
   Registry.register "timingrange" timingrange;
   Registry.register "silence" silence;
-  Registry.register "silencegarble" silence
+  Registry.register "silencegarble" silence;
+  Registry.register "silencepartial" silence
